@@ -308,6 +308,57 @@ def explore_case(prop, harness_make, case, kf, *, max_paths=4096, witness_every=
     return res
 
 
+SECOND = {"every": 0, "count": 0}
+
+
+def second_solver(neg):
+    """Re-discharge `pc and neg` with an independent solver binary; returns 'unsat' | 'sat' | 'unknown' | 'error'."""
+    import os
+    import subprocess
+    import tempfile
+    s2 = z3.Solver()
+    s2.add(*ENGINE.pc)
+    s2.add(neg)
+    text = s2.to_smt2()
+    fd, path = tempfile.mkstemp(suffix=".smt2", prefix="vf_second_")
+    try:
+        with os.fdopen(fd, "w") as f:
+            f.write(text)
+        for cmd in (["/usr/bin/z3", "-T:30", "-smt2", path], ["cvc5", "--tlimit=30000", path]):
+            try:
+                p = subprocess.run(cmd, capture_output=True, text=True, timeout=40)
+            except Exception:  # noqa: BLE001
+                continue
+            out = p.stdout.strip().splitlines()
+            if any(line.startswith("(error") for line in out):
+                continue
+            if out and out[0] in ("sat", "unsat", "unknown"):
+                return out[0], cmd[0]
+        return "error", ""
+    finally:
+        try:
+            os.unlink(path)
+        except OSError:
+            pass
+
+
+def _second(res, neg, primary):
+    if not SECOND["every"]:
+        return
+    SECOND["count"] += 1
+    if SECOND["count"] % SECOND["every"]:
+        return
+    ans, who = second_solver(neg)
+    st = res.setdefault("second", {"checked": 0, "agree": 0, "disagree": [], "inconclusive": 0})
+    st["checked"] += 1
+    if ans == primary:
+        st["agree"] += 1
+    elif ans in ("unknown", "error"):
+        st["inconclusive"] += 1
+    else:
+        st["disagree"].append(f"{who}: {ans} vs z3: {primary}")
+
+
 def _discharge(prop, ctx, case, kf, res):
     pending = []
     for label, cond, detail in ctx.checks:
@@ -321,9 +372,11 @@ def _discharge(prop, ctx, case, kf, res):
         return
     # one query for the conjunction; only when it is refuted are the obligations examined one by one
     if len(pending) > 1 and not any(c is False for _, c, _ in pending):
-        r = ENGINE.check(z3.Not(z3.And(*[rt.bterm(c) for _, c, _ in pending])))
+        conj = z3.Not(z3.And(*[rt.bterm(c) for _, c, _ in pending]))
+        r = ENGINE.check(conj)
         if r == z3.unsat:
             res["discharged"] += len(pending)
+            _second(res, conj, "unsat")
             return
     for label, cond, detail in pending:
         entries = kf.matching(prop, case, label)
@@ -345,6 +398,8 @@ def _discharge(prop, ctx, case, kf, res):
             r = ENGINE.check(neg)
         if r == z3.unsat:
             res["discharged"] += 1
+            if not entries:
+                _second(res, neg, "unsat")
         elif r == z3.sat:
             m = ENGINE.solver.model()
             res["violations"].append({"label": label, "detail": detail, "assignment": assignment_from_model(m)})
